@@ -807,8 +807,9 @@ class IterativeSweeps(Sweep):
             self.status_update(iteration_start_time=iteration_start_time)
             is_first_sweep = False
         self.post_run_cleanup()
+        # (no iteration at all, e.g. resumed beyond `max_sweeps` or out of time: nothing was truncated)
         consistency_check(
-            np.max(self.trunc_err_list),
+            np.max(getattr(self, 'trunc_err_list', None) or [0.0]),
             self.options,
             'max_trunc_err',
             1e-4,
